@@ -192,11 +192,13 @@ class ScanEnv:
             if m == 'format_and_value':
                 ds = d(args[1])
                 r = self.fmt(ds)
+                ev.append(('format-ds', (id(ds),)))
                 ev.append(('format', list(ds.words), ds.ordinal, r))
                 return r
             if m == 'format_decimal_and_value':
                 i, dp = d(args[1]), d(args[2])
                 r = self.fmt_dec(i, dp)
+                ev.append(('format-ds', (id(i), id(dp))))
                 ev.append(('format-dec', list(i.words), list(dp.words), i.ordinal, r))
                 return r
             raise Unsupported('scanner calls LangInterpreter::' + m)
